@@ -75,7 +75,7 @@ type ClientReq struct {
 	CTSuffix  string
 
 	// Connect GET choices
-	GetNoBase64 bool // send text codec un-base64'd
+	GetNoBase64 bool // send the message percent-encoded instead of base64 (any codec, compressed or not)
 	GetPadded   bool
 	GetViaQuery bool // classify via connect=v1 (true) or Connect-Protocol-Version header (false)
 
@@ -153,7 +153,8 @@ func (c *ClientReq) Build(r *rand.Rand) (*BuiltReq, error) {
 			data = compressWith(c.Comp, data)
 			q.Set("compression", c.Comp)
 		}
-		if c.Codec == "json" && c.Comp == "" && c.GetNoBase64 {
+		if c.GetNoBase64 {
+			// "base64" and "compression" are independent: a binary or compressed message may travel percent-encoded
 			q.Set("message", string(data))
 		} else {
 			q.Set("base64", "1")
